@@ -2,6 +2,7 @@ package checks
 
 import (
 	"fmt"
+	"strings"
 
 	ucfg "github.com/elastic/go-ucfg"
 
@@ -79,6 +80,104 @@ func c16IrrelevantOption(ts []*tree.Node, paths []string) *core.Space {
 			}
 			plain := tree.Merge(g, a, b).Canon()
 			return core.Result{Nontrivial: alone != plain, Outcome: "same"}
+		},
+	}
+}
+
+// C16, names that look like numbers: a segment above the configured maximum index (or any numeric
+// single-segment key under EnableNumKeys) is an ordinary name (C20), so a field option naming it must behave
+// exactly as it does for a plain name. Metamorphic: the merge with the numeric spelling, its key renamed, must
+// equal the merge with the plain name "kk" (which the other spaces compare with the model).
+func c16NumericNames() *core.Space {
+	spellings := []struct {
+		Key  string
+		Opts []ucfg.Option
+		Text string
+	}{
+		{"500", []ucfg.Option{ucfg.MaxIdx(10)}, `"500" under MaxIdx(10)`},
+		{"11", []ucfg.Option{ucfg.MaxIdx(10)}, `"11" under MaxIdx(10)`},
+		{"2000", nil, `"2000" under the default MaxIdx`},
+		{"-1", nil, `"-1"`},
+	}
+	paths := []string{"a.K", "K", "a", "a.K.x", "**.K"}
+	layouts := []func(k string) (M, M){
+		func(k string) (M, M) {
+			return M{"a": M{k: L{"A1", "A2"}, "z": L{"A1", "A2"}}, k: L{"A1", "A2"}}, M{"a": M{k: L{"B1"}, "z": L{"B1"}}, k: L{"B1"}}
+		},
+		func(k string) (M, M) {
+			return M{"a": M{k: M{"x": L{"A1", "A2"}, "y": "A"}}}, M{"a": M{k: M{"x": L{"B1"}}}}
+		},
+	}
+	np, nf := len(allPolicies), len(fieldPolicies)
+	radices := []int{len(spellings), len(paths), len(layouts), np, nf}
+	return &core.Space{
+		Name: "numeric-looking-names-in-field-options",
+		Size: product(radices...),
+		Text: func(i int) string {
+			d := mixedRadix(i, radices...)
+			return fmt.Sprintf("global=%s %s(%q) with K = %s vs. K = \"kk\"; layout %d", allPolicies[d[3]], fieldOptName(fieldPolicies[d[4]]), paths[d[1]], spellings[d[0]].Text, d[2])
+		},
+		Exec: func(i int) core.Result {
+			d := mixedRadix(i, radices...)
+			sp, path, lay, g, fp := spellings[d[0]], paths[d[1]], layouts[d[2]], allPolicies[d[3]], fieldPolicies[d[4]]
+			var got, want string
+			var err error
+			pi := core.Guard(func() {
+				run := func(k string, extra []ucfg.Option) (string, error) {
+					// the option set is the same at every step: the limit is given before the field option
+					opts := append([]ucfg.Option{ucfg.PathSep(".")}, extra...)
+					opts = append(opts, policyOpt[g]...)
+					opts = append(opts, fieldOpt{strings.ReplaceAll(path, "K", k), fp}.option())
+					a, b := lay(k)
+					ca, err := ucfg.NewFrom(a, opts...)
+					if err != nil {
+						return "", err
+					}
+					if err := ca.Merge(b, opts...); err != nil {
+						return "", err
+					}
+					m, err := unpackGeneric(ca, opts...)
+					if err != nil {
+						return "", err
+					}
+					var rename func(v interface{}) interface{}
+					rename = func(v interface{}) interface{} {
+						switch x := v.(type) {
+						case map[string]interface{}:
+							out := map[string]interface{}{}
+							for key, e := range x {
+								if key == k {
+									key = "kk"
+								}
+								out[key] = rename(e)
+							}
+							return out
+						case []interface{}:
+							out := make([]interface{}, len(x))
+							for n, e := range x {
+								out[n] = rename(e)
+							}
+							return out
+						}
+						return v
+					}
+					return tree.CanonGo(rename(map[string]interface{}(m))), nil
+				}
+				if got, err = run(sp.Key, sp.Opts); err != nil {
+					return
+				}
+				want, err = run("kk", sp.Opts)
+			})
+			if pi != nil {
+				return apiPanic("numeric-names", pi)
+			}
+			if err != nil {
+				return core.Fail("numeric-names", "ERROR numeric-looking name in a field option", err.Error())
+			}
+			if got != want {
+				return core.Fail("numeric-names", "NUMERIC-LOOKING-NAME-TREATED-DIFFERENTLY "+fieldOptName(fp), fmt.Sprintf("with the name spelled %s: %s, with a plain name: %s", sp.Text, got, want))
+			}
+			return core.Result{Nontrivial: true, Outcome: "same"}
 		},
 	}
 }
